@@ -635,6 +635,20 @@ func (w *W) harnessAPI(f *frame, fn *ssa.Function, args []Value, key int, g *Ter
 			w.nondetNames[v.id] = name
 		}
 		return v, g, true
+	case "vLibGoroutinesAlive":
+		if f.finalGuard == nil {
+			panic("vLibGoroutinesAlive is only meaningful in final-state predicates")
+		}
+		n := BV(64, 0)
+		for _, th := range w.threads {
+			if th.fromLib {
+				n = Add(n, Ite(And(th.spawned, Not(th.finished)), BV(64, 1), BV(64, 0)))
+			}
+		}
+		return n, g, true
+	case "vPrologueEnd":
+		w.prologue = false
+		return nil, g, true
 	case "vAssume":
 		c := args[0].(*Term)
 		if f.finalGuard != nil {
